@@ -130,3 +130,49 @@ def unloadMsg (m : Bytes) : FrameHeader × Option Bytes :=
         some (m.drop 28))
 
 end Rangers.Wire
+
+namespace Rangers.Wire
+open Rangers Rangers.Json
+
+/-! ## the transaction request (`core/msg_sender.go` writes it with gogo, `core/msg_handler.go` reads it
+with protobuf-go): `TransactionRequestMessage { repeated TransactionHash = 1; required bytes CurrentBlockHash = 2;
+required uint64 BlockHeight = 3; required bytes BlockPv = 4 }` -/
+
+structure TxReq where
+  hashes : List (Bytes × Bytes)
+  current : Bytes
+  height : Nat
+  pv : Option Int            -- `*big.Int`
+  deriving Repr, DecidableEq, Inhabited
+
+def rawsOfTxReq (m : TxReq) (pv : Int) : List Raw :=
+  repLenR 1 (m.hashes.map (fun p => encRaws (rawsOfTxHash ⟨some p.1, some p.2⟩))) ++
+  [.len 2 m.current, .vint 3 m.height, .len 4 (natToBE pv.natAbs)]
+
+/-- `marshalTransactionRequestMessage`; a nil `BlockPv` faults in `m.BlockPv.Bytes()`. -/
+def marshalTxReq (m : TxReq) : Outcome Bytes :=
+  match m.pv with
+  | none => .panic 601
+  | some v => .ok (encRaws (rawsOfTxReq m v))
+
+def decTxHashV2 (bs : Bytes) : Option PbTxHash :=
+  match parseRawV2 bs with
+  | none => none
+  | some rs => some (txHashOfRaws rs)
+
+def txReqRequired (rs : List Raw) : Bool := hasLen 2 rs && hasVint 3 rs && hasLen 4 rs
+
+/-- `unMarshalTransactionRequestMessage`. -/
+def unmarshalTxReq (bs : Bytes) : Outcome TxReq :=
+  match parseRawV2 bs with
+  | none => .err
+  | some rs =>
+    match mapM' decTxHashV2 (allLen 1 rs) with
+    | none => .err
+    | some ths =>
+      if txReqRequired rs then
+        .ok ⟨ths.map (fun t => (optHash t.hash, optHash t.subHash)), optHash (lastLen 2 rs),
+             (lastVint 3 rs).getD 0, some ((beToNat ((lastLen 4 rs).getD []) : Nat) : Int)⟩
+      else .err
+
+end Rangers.Wire
